@@ -17,7 +17,7 @@ Theorem C03_positional_correlation : forall cfg pools slots evs st s sv,
   (ps_open sv = true -> ps_inq sv = map fst (skipn (ps_taken sv) (ps_written sv))) /\
   (ps_taken sv <= length (ps_written sv))%nat /\
   Forall (fun e => match fst e with
-                   | FProbe => snd e = ReqClusterNodes
+                   | FProbe a => snd e = if a then ReqAsking else ReqClusterNodes
                    | FReq mid slot => exists m, lookup mid (msgs st) = Some m /\ snd e = frag_req st (FReq mid slot)
                    end) (ps_written sv).
 Proof. exact wire_identity. Qed.
